@@ -522,6 +522,28 @@ func quantifiedNullableCapture(p, f string) bool {
 	return false
 }
 
+var reNamedField = regexp.MustCompile(`<([^,<>]*,[^,<>]*,[^,<>]*),(?:\$<a>|[^,<>]*),`)
+
+// stripNamedField blanks the $<a> field of every "<$&,$1,$2,$<a>,prefix,suffix>" segment of a replaceStr dump, so
+// that two dumps that differ only in the named-group substitution compare equal.
+func stripNamedField(d string) string { return reNamedField.ReplaceAllString(d, "<$1,,") }
+
+var (
+	reStrPrefix = regexp.MustCompile(`<[^,<>]*,[^,<>]*,[^,<>]*,(?:\$<a>|[^,<>]*),([^,<>]*),`)
+	reFnOffset  = regexp.MustCompile(`,(\d+)[){]`)
+)
+
+// replacedBeyondStart: the (single) replacement reported by a replace dump happened at an index > 0, i.e. text
+// precedes the match (replaceStr: the $` field is not empty; replaceFn: the offset argument is not 0).
+func replacedBeyondStart(op, d string) bool {
+	if op == "replaceStr" {
+		m := reStrPrefix.FindStringSubmatch(d)
+		return m != nil && m[1] != ""
+	}
+	m := reFnOffset.FindStringSubmatch(d)
+	return m != nil && m[1] != "0"
+}
+
 func stripGroups(d string) string {
 	d = reGroups.ReplaceAllString(d, "")
 	return strings.ReplaceAll(d, "]-", "]")
@@ -582,11 +604,11 @@ func rootCause(p, f string, s *subject, patch int, b *bad) string {
 	// ---- path-level defects (shape-checked)
 	switch {
 	case has(pf, "named-group") && fl("u") && !asciiOnly(s) && (strings.HasSuffix(s1, "re2") || strings.HasSuffix(s2, "re2")) &&
-		(stripGroups(b.D1) == stripGroups(b.D2) || b.Op == "replaceStr"):
+		(stripGroups(b.D1) == stripGroups(b.D2) || b.Op == "replaceStr" && stripNamedField(b.D1) == stripNamedField(b.D2)):
 		return "engine|named groups|re2+u flag+non-ASCII subject: groups missing from the match result"
 	case isReplace && fl("u") && !fl("g") && !asciiOnly(s) && (one("fast-rx2") || b.K > 0 && oneFast) && n1 != n2 && max(n1, n2) > 1:
 		return "fast-path|replace|regexp2+u flag+non-ASCII subject: non-global replace replaces every match"
-	case isReplace && fl("y") && !fl("g") && !asciiOnly(s) && one("fast-re2") && b.K == 0 && n1+n2 == 1:
+	case isReplace && fl("y") && !fl("g") && !asciiOnly(s) && one("fast-re2") && b.K == 0 && n1+n2 == 1 && replacedBeyondStart(b.Op, b.D1+b.D2):
 		return "fast-path|replace|re2+sticky+non-ASCII subject: sticky ignored at lastIndex 0"
 	case (isReplace || b.Op == "match") && fl("g") && fl("y") && oneFast && nFast < nSlow && nullable(p, f):
 		return "fast-path|global+sticky match/replace|iteration over empty matches differs from the exec loop"
